@@ -319,26 +319,34 @@ func (t *connTrack) done(addr string) bool {
 }
 
 type fuzzer struct {
-	conns *connTrack
-	c     *run.Ctx
-	sess  *sqldrv.Session
-	reg   *sqldrv.Registry
-	rd    *sqldrv.Reader
-	cl    *rdcat.Client
-	plog  *panicLog
-	cur   atomic.Pointer[ccase]
-	nstmt atomic.Int64
-	kinds sync.Map
-	gone  atomic.Pointer[chan struct{}]
-	nsess int
-	lane  int
+	conns        *connTrack
+	harnessFault atomic.Pointer[string]
+	c            *run.Ctx
+	sess         *sqldrv.Session
+	reg          *sqldrv.Registry
+	rd           *sqldrv.Reader
+	cl           *rdcat.Client
+	plog         *panicLog
+	cur          atomic.Pointer[ccase]
+	nstmt        atomic.Int64
+	kinds        sync.Map
+	gone         atomic.Pointer[chan struct{}]
+	nsess        int
+	lane         int
 }
 
 func (f *fuzzer) newSession() {
 	f.nsess++
 	s := sqldrv.NewSession(fmt.Sprintf("c12-%d-%d-%d", f.lane, os.Getpid(), f.nsess), nil)
 	s.Tables = []string{"samples_v3", "time_series", "metrics_15s"}
-	s.SetHandler(func(ctx context.Context, q string) (*sqldrv.Rows, error) {
+	s.SetHandler(func(ctx context.Context, q string) (rows *sqldrv.Rows, err error) {
+		defer func() {
+			if r := recover(); r != nil { // a fault of the harness must never look like one of the reader
+				msg := fmt.Sprintf("harness fault in the scripted driver: %v", r)
+				f.harnessFault.Store(&msg)
+				rows, err = nil, fmt.Errorf("%s", msg)
+			}
+		}()
 		k := rdcat.Classify(q)
 		f.kinds.Store(string(k), true)
 		cs := f.cur.Load()
@@ -456,6 +464,13 @@ func Child(c *run.Ctx, name string) {
 		t0 := time.Now()
 		outcome := f.send(cs, gone)
 		tSend := time.Since(t0)
+		if hf := f.harnessFault.Swap(nil); hf != nil {
+			c.Case("")
+			c.Undecided(*hf)
+			f.cur.Store(nil)
+			c.EndCase(gi)
+			continue
+		}
 		if outcome.kind == "unsendable" {
 			c.Case("")
 			c.Cover("generator", "request not sendable", 1)
@@ -568,12 +583,12 @@ func clipAll(ss []string, n int) []string {
 // rowsLeakClass names the circumstance under which rows stayed open.
 func rowsLeakClass(cs *ccase) string {
 	switch {
+	case cs.DB.Mode != "ok":
+		return cs.DB.Mode
 	case cs.DB.Twist != "":
 		return string(cs.DB.Twist)
 	case cs.Client != "normal":
 		return cs.Client
-	case cs.DB.Mode != "ok":
-		return cs.DB.Mode
 	}
 	return "plain-" + cs.DB.Shape
 }
